@@ -415,6 +415,12 @@ def run(ctx, rep):
     for o in r3.obligations:
         if o["instance"].startswith("30-day:"):
             rep.ob("R6", o["instance"], o["ok"], o["detail"], o["site"], key="R6:" + o["instance"])
+    # …and the claim is FOUND again when its acquisition is booked: claims and cost offsets are read under the key they were written
+    # under — the position in the whole transaction list (shared with C09-R5). An index that counts only the day's BUY lines
+    # (`filter(..).enumerate()`) misses the claim whenever another line precedes the purchase on its day: the claimed shares are
+    # pooled as well and every later Section 104 leg is costed on shares that are gone (seeded change C01-s9)
+    import rules.c09 as c09
+    c09.shared_index_space(R, rep, "R6")
     # "each leg's allowable cost": a same-day leg is costed at the average of the shares that are actually available to it —
     # one weight per lot, the lot's availability — and every leg's cost is unit cost × the matched quantity (shared with
     # C03-R1/R4; seeded change C01-s5 averaged over everything bought that day)
